@@ -524,6 +524,12 @@ def gen(ctx):
         yield 'text', dict(family=fam, text=text, max_batch=None)
     for fam, text in docs.numbers(False):
         yield 'text', dict(family=fam, text=text, max_batch=None)
+    # results the response encoder refuses (a set, an object, bytes): whatever happens, it happens on both halves alike
+    for what in ('set', 'object', 'bytes', 'nested'):
+        one = docs.obj(id=1, method='unenc', params=[what])
+        for d in (one, docs.obj(method='unenc', params=[what]), [docs.obj(id=2, method='ok', params=['a']), one],
+                  [one, docs.obj(id=3, method='nope')]):
+            yield 'text', dict(family='result-the-encoder-refuses', text=json.dumps(d), max_batch=None)
     # far beyond what the decoder can nest: whatever happens, it happens on both halves alike
     for depth in (2000, 100000):
         for text in ('[' * depth + ']' * depth, '{"a":' * depth + '1' + '}' * depth,
@@ -557,7 +563,7 @@ def gen(ctx):
             yield 'retry', dict(spec=spec, codes=('one', 'several', 'none', 'one')[k % 4], excs=('one', 'several', 'one', 'empty')[(k // 3) % 4],
                                 n_tracers=k % 3, requests=reqs)
     # scripted attempt outcomes incl. BaseException subclasses and CancelledError raised by the transport
-    outs = [o for o in c19.OUTCOMES if o not in ('cancel-task', 'exc-stopiteration')]   # (the interpreter itself replaces StopIteration inside a coroutine)
+    outs = [o for o in c19.OUTCOMES if o not in ('cancel-task', 'exc-stopiteration', 'exc-kbdint', 'exc-sysexit')]   # (the interpreter itself replaces StopIteration inside a coroutine)
     for attempts in (None, 0, 1, 2):
         n = attempts or 0
         scripts = list(itertools.product(outs, repeat=n + 1)) if n <= 1 else \
